@@ -16,7 +16,7 @@ use std::sync::{Arc, Mutex, OnceLock};
 use crate::model::GraphSpec;
 
 /// CPU seconds one `build()` may use before the watchdog ends the process.
-pub const HARD_CAP_S: f64 = 20.0;
+pub const HARD_CAP_S: f64 = 60.0;
 
 struct SlotState {
     /// Spec of the build in progress (null: none).  Only dereferenced by the
